@@ -384,19 +384,18 @@ class TestcaseSymbol(Testcase):
         # the delimiters are plain bytes, not character class syntax
         before = re.escape(before)
         after = re.escape(after)
+        # an empty set of delimiters has no character class ("[]" is not one)
+        ends = [b"$"]
+        if after:
+            ends.insert(0, b"[" + after + b"]")
+        if before:
+            ends.append(b"(?=[" + before + b"])")
         self._cutter = re.compile(
-            b"["
-            + before
-            + b"]?"
-            + b"[^"
-            + before
-            + after
-            + b"]*"
-            + b"(?:["
-            + after
-            + b"]|$|(?=["
-            + before
-            + b"]))"
+            (b"[" + before + b"]?" if before else b"")
+            + (b"[^" + before + after + b"]*" if before or after else b"(?s:.)*")
+            + b"(?:"
+            + b"|".join(ends)
+            + b")"
         )
 
     def split_parts(self, data: bytes) -> None:
